@@ -131,6 +131,7 @@ PROPS = {
         "partial": ["interleavings"],
     },
     "C15": {
+        "miri": True,
         "modules": ["ALock.Props.C15"],
         "prims": ["mutex", "sem", "rwlock"],
         "fields": ["out", "strong", "dropped"],
@@ -196,4 +197,22 @@ PROPS = {
         "assumptions": ["polls are atomic (single-threaded executor); a notification racing a registration is not modelled"],
         "partial": ["thread interleavings (deadlock under threads) are not covered by the theorem"],
     },
+}
+
+
+# Search aid (never a proof): scenarios of loomh/ run against the real crate under loom 0.7
+# (all interleavings up to a preemption bound, C11 memory model). A failure is a violation with the
+# scenario as replay; passing adds nothing to the proof level.
+LOOM = {
+    "C01": ["c01_try_lock", "c01_lock", "c05_three"],
+    "C02": ["c02_try", "c02_upgrade", "c02_async", "c06_mix", "c11_downgrade_async", "c11_upgrade_async"],
+    "C03": ["c03_add", "c03_excl", "c03_async", "c07_three"],
+    "C04": ["c04_blocking", "c04_publish", "c08_handover"],
+    "C05": ["c01_lock", "c05_three"],
+    "C06": ["c02_async", "c06_mix", "c11_upgrade_async"],
+    "C07": ["c03_async", "c07_three"],
+    "C08": ["c08_handover", "c04_blocking"],
+    "C09": ["c09_barrier"],
+    "C11": ["c11_downgrade", "c11_to_upgradable", "c11_downgrade_async", "c11_upgrade_async"],
+    "C12": ["c02_async", "c06_mix"],
 }
